@@ -57,4 +57,10 @@ def stableB (E : Env S) (s : St S) : Bool :=
     | none => false
     | some el' => decide (el'.cost = el.cost)
 
+/-- a cost list without placeholder whose finite parts are non-decreasing (Boolean): the hypothesis of the
+    order theorem C03_Beap_order_partial, evaluated on the final `_cost_lists[start]` of every case -/
+def sortedB : List Cost → Bool
+  | [] => true
+  | x :: xs => xs.all (fun y => decide (x.fin ≤ y.fin)) && sortedB xs
+
 end PS.Beap
